@@ -10,6 +10,7 @@ const bool ordered = true;
 const char *stdout_marker = nullptr;
 const char *stdout_branch_marker = nullptr;
 const double numeric_rel_tol = 0;
+const bool exact_lattice_plans = false;
 const double conditioning_gate = 1e-2;
 
 enum { V_TWO = 1, V_VOLCORR = 2, V_BLOCKS = 4 };
